@@ -1936,6 +1936,36 @@ def group_item():
             "Definition gen_group_body_is_the_transcribed_one : bool := true.\n" % chain)
 
 
+def queue_item():
+    """executor.py _ReadyToRunQueue: two FIFO queues (append on the right, popleft); an operation joins the parallel queue iff it is
+    parallelizable; parallelizable operations are dequeued first; has_ops / has_parallelizable_ops over the two lengths."""
+    rel = "conductor/execution/executor.py"
+    body = lambda name: [x for x in _body_without_docstring(_find_method(rel, "_ReadyToRunQueue", name))]  # noqa: E731
+    init = sorted(ast.unparse(x) for x in body("__init__"))
+    if init != ["self._parallel_ops: Deque[Operation] = collections.deque()", "self._sequential_ops: Deque[Operation] = collections.deque()"]:
+        raise Unsupported("_ReadyToRunQueue is not two deques: %r" % init)
+    leaves = {"len(self._sequential_ops)": "n_seq", "len(self._parallel_ops)": "n_par"}
+    ho, hp = body("has_ops"), body("has_parallelizable_ops")
+    if len(ho) != 1 or len(hp) != 1 or not isinstance(ho[0], ast.Return) or not isinstance(hp[0], ast.Return):
+        raise Unsupported("has_ops / has_parallelizable_ops are not single returns")
+    has_ops, has_par = _bexpr(ho[0].value, leaves, NAT_OPS), _bexpr(hp[0].value, leaves, NAT_OPS)
+    enq = [ast.unparse(x) for x in body("enqueue_op")]
+    if enq != ["if op.parallelizable:\n    self._parallel_ops.append(op)\nelse:\n    self._sequential_ops.append(op)"]:
+        raise Unsupported("enqueue_op: %r" % enq)
+    deq = [ast.unparse(x) for x in body("dequeue_next")]
+    if deq != ["if self.has_parallelizable_ops():\n    return self._parallel_ops.popleft()\nelse:\n    return self._sequential_ops.popleft()"]:
+        raise Unsupported("dequeue_next: %r" % deq)
+    load = [ast.unparse(x) for x in body("load")]
+    if load != ["for op in initial_ops:\n    self.enqueue_op(op)"]:
+        raise Unsupported("load: %r" % load)
+    return ("(* conductor/execution/executor.py _ReadyToRunQueue *)\n"
+            "Definition gen_queue_has_ops (n_seq n_par : nat) : bool := %s.\n"
+            "Definition gen_queue_has_par (n_seq n_par : nat) : bool := %s.\n"
+            "Definition gen_enqueue_to_parallel (parallelizable : bool) : bool := parallelizable.\n"
+            "Definition gen_dequeue_from_parallel (has_par : bool) : bool := has_par.\n"
+            "Definition gen_queues_are_fifo : bool := true.\n" % (has_ops, has_par))
+
+
 def version_item():
     """VersionIndex.generate_new_output_version: the timestamp as a function of the clock and the last timestamp"""
     f = _find_method("conductor/execution/version_index.py", "VersionIndex", "generate_new_output_version")
@@ -2000,7 +2030,7 @@ def generate():
         failures["task_type_table"] = "%s: %s" % (type(ex).__name__, ex)
         parts.append("(* task_type_table: NOT TRANSLATED: %s *)\n" % str(ex).replace("*)", "* )"))
     for coqname, fn in (("gen_gate_open", gate_item), ("gen_new_version", version_item), ("gen_loop_goes_on", loop_item), ("gen_wants_slot", slot_item),
-                        ("gen_prune", prune_item), ("gen_should_run", should_run_item), ("gen_sel_top", select_item), ("gen_validate_args", validate_args_item), ("gen_finish", finish_item), ("gen_record_type", record_type_item), ("gen_tee_iteration", tee_item), ("gen_env_overrides", spawn_item), ("gen_launch_block", abort_item), ("gen_combine_decision", combine_item), ("gen_gc_decision", gc_item), ("gen_restore_before_loop", restore_item), ("gen_archive_output_decision", archive_item), ("gen_deps_paths_step", deps_paths_item), ("gen_copy_query", copy_item), ("gen_ident_repr", ident_item), ("gen_where_decision", where_item), ("gen_enqueue_dependent", exec_decisions_item), ("gen_clean_removals", clean_item), ("gen_lowering", lowering_item), ("gen_push_dep", first_visit_item), ("gen_group_chains", group_item)):
+                        ("gen_prune", prune_item), ("gen_should_run", should_run_item), ("gen_sel_top", select_item), ("gen_validate_args", validate_args_item), ("gen_finish", finish_item), ("gen_record_type", record_type_item), ("gen_tee_iteration", tee_item), ("gen_env_overrides", spawn_item), ("gen_launch_block", abort_item), ("gen_combine_decision", combine_item), ("gen_gc_decision", gc_item), ("gen_restore_before_loop", restore_item), ("gen_archive_output_decision", archive_item), ("gen_deps_paths_step", deps_paths_item), ("gen_copy_query", copy_item), ("gen_ident_repr", ident_item), ("gen_where_decision", where_item), ("gen_enqueue_dependent", exec_decisions_item), ("gen_clean_removals", clean_item), ("gen_lowering", lowering_item), ("gen_push_dep", first_visit_item), ("gen_group_chains", group_item), ("gen_queue_has_ops", queue_item)):
         try:
             parts.append(fn())
         except Exception as ex:  # pylint: disable=broad-except
